@@ -3,7 +3,7 @@
 # Runs `cargo +nightly check` of the corpus crate (which path-depends on /repo) through the
 # flatty-facts driver in a fresh target directory; facts land in <out-facts-dir>.
 set -u
-CORPUS="$1"; OUT="$2"
+CORPUS="$(realpath "$1")"; mkdir -p "$2"; OUT="$(realpath "$2")"
 DRV=/verif/driver/target/release/flatty-facts
 [ -x "$DRV" ] || { echo "driver not built: run setup" >&2; exit 2; }
 mkdir -p "$OUT"; rm -f "$OUT"/*.jsonl "$OUT"/cargo.log
